@@ -90,7 +90,7 @@ def run(R):
     R.extra['strata'] = strata
     for i in range(0, len(jobs), 1500):
         recs = gramrun.run_grammars(jobs[i:i + 1500])
-        gramrun.compare(R, recs, 'rep-sep', mechanism_of)
+        gramrun.compare(R, recs, 'rep-sep', mechanism_of, reject_is_violation=True)
     R.assumptions += ['regular expressions are an oracle (tables computed with Python re)',
                       'e{m,n} with a run-time m > n is outside the property (the constructor rejects it for literals): the specification makes no claim there']
     return R.finish(
